@@ -38,6 +38,16 @@ CLAIMS = {
    note=TB+"Bounds: subjects <= 3 (quick) / 5 (thorough) code points of Sigma, 95 catalogue patterns, histories <= 2/3. regexp itself (parser/compiler) is environment.",
    technique="SMT-guided symbolic execution of go/ssa; rune-vector strings; symbolic Thompson-NFA simulation of regexp/syntax programs; LIA case tables; native replay",
    ref="4/C19"),
+ "C11": dict(
+   text="Bounded symbolic execution of the text kernels that carry the setup file over: marker substitution (Generate/generateContent with symbolic surrounding text, 1..2 blocks in either order, 0..2 functions each, two marker pairs) and notation/directive extraction (ExtractMatchComments/MatchComments/ToTextList over groups of 0..5 comments with symbolic texts and arbitrary match outcomes). The solver decides every branch; results are compared with reference equations.",
+   note=TB+"NOT decided (DESIGN.md section 5): what go/printer prints, the marker-to-marker regexp cut of GenerateBaseCode, imports.Process pruning - library internals outside the encoder's reach.",
+   technique="SMT-guided symbolic execution of go/ssa over symbolic byte-vector / SMT strings; reference equations",
+   ref="4/C11"),
+ "C13": dict(
+   text="Bounded symbolic execution with map iteration order as an explored dimension: NewImportNames/LookupName/LookupPath over arbitrary valid import tables under every iteration order at every range site, with a cross-path obligation (solver query per pair of jointly satisfiable paths) that all lookup results agree; marker independence of generateContent (two marker sets, equal content); SSA inventory of every map range, goroutine, select, random/time/environment call in convergen's packages against a reviewed allow-list (a new site is inconclusive, never silently accepted). Order dependences are replayed natively by repetition.",
+   note=TB+"NOT decided: package/file order delivered by go/packages, go/printer, the regexp cut on text containing the random marker, stderr interleaving.",
+   technique="SMT-guided symbolic execution of go/ssa with map-order forking and cross-path (2-safety) solver queries; SSA inventory; native replay by repetition",
+   ref="4/C13"),
 }
 
 NA_REASON = "check under construction in this session (engine exists, harness not yet registered); see DESIGN.md section 4"
